@@ -263,6 +263,12 @@ func (s *nsState) enabled() []nsOp {
 	}
 	if s.prop == "C04" {
 		for _, h := range s.held {
+			ops = append(ops, nsOp{Kind: "fsstat", H: h}, nsOp{Kind: "fsinfo", H: h}, nsOp{Kind: "pathconf", H: h})
+			if n := s.model[h]; n != nil && n.kind == "f" {
+				ops = append(ops, nsOp{Kind: "write", H: h}, nsOp{Kind: "commit", H: h})
+			}
+		}
+		for _, h := range s.held {
 			if h == "/" {
 				continue
 			}
@@ -302,8 +308,17 @@ func (s *nsState) expect(op nsOp) nsVerdict {
 	fail := nsVerdict{}
 	child := pjoin(op.H, op.Name)
 	switch op.Kind {
-	case "getattr", "access":
+	case "getattr", "access", "fsstat", "fsinfo", "pathconf":
 		return nsVerdict{ok: s.model[op.H] != nil}
+	case "write", "commit":
+		n := s.model[op.H]
+		if n == nil || n.kind != "f" {
+			return nsVerdict{either: true}
+		}
+		if op.Kind == "commit" {
+			return nsVerdict{ok: true}
+		}
+		return nsVerdict{ok: true, apply: func() { n.data += "w" }}
 	case "read":
 		return nsVerdict{ok: s.model[op.H] != nil && s.model[op.H].kind == "f"}
 	case "readlink":
@@ -484,6 +499,25 @@ func (side *nsSide) do(op nsOp) nsReply {
 	case "setowner":
 		proc = wire.SETATTR
 		a.FH(h).Sattr(wire.Sattr{UID: wire.U32p(7), GID: wire.U32p(8)}).U32(0)
+	case "fsstat":
+		proc = wire.FSSTAT
+		a.FH(h)
+	case "fsinfo":
+		proc = wire.FSINFO
+		a.FH(h)
+	case "pathconf":
+		proc = wire.PATHCONF
+		a.FH(h)
+	case "commit":
+		proc = wire.COMMIT
+		a.FH(h).U64(0).U32(0)
+	case "write": // append one byte at the current end of the file
+		proc = wire.WRITE
+		off := uint64(0)
+		if fi, err := e.fs.Inner().Lstat(op.H); err == nil {
+			off = uint64(fi.Size())
+		}
+		a.FH(h).U64(off).U32(1).U32(2).Opaque([]byte("w"))
 	}
 	res, rp, err := e.nfsCall(proc, a.B)
 	if err != nil || res == nil {
@@ -497,9 +531,13 @@ func (side *nsSide) do(op nsOp) nsReply {
 		}
 	}
 	switch op.Kind {
-	case "getattr", "access", "read", "readlink":
+	case "getattr", "access", "read", "readlink", "fsstat", "fsinfo", "pathconf":
 		put(op.H, res.Attr)
 		r.link = res.Link
+	case "write", "commit":
+		if res.Wcc != nil {
+			put(op.H, res.Wcc.After)
+		}
 	case "lookup":
 		put(child, res.Attr)
 		put(op.H, res.DirAttr)
@@ -860,7 +898,7 @@ func init() {
 	vRegister(&vCheck{
 		id: "C04", level: "model_checking", flavour: "vtime",
 		shards: func(string) int { return 16 },
-		rule: "breadth-first search over request histories of the C02 alphabet plus ACCESS, READ, SETATTR(mode in {0,0644,0755,07777,0644|1<<27,0755|1<<31,0x4000|0755}), SETATTR(size), SETATTR(uid,gid) through every held handle, from a tree containing a directory, a regular file and a symlink to a directory, and from an empty export, with attribute TTL {1ns,1h} and directory cache {off,on}; depth 3 (thorough 4); every fattr3 / post-op attribute / wcc after-attribute / READDIRPLUS entry carried by a reply is harvested and compared with the backend's lstat of that path (file type, size of regular files, permission bits) and with the fileid every other reply gave for the same unchanged path; after a successful SETATTR the same handle must still answer GETATTR (and READDIR for a directory).",
+		rule: "breadth-first search over request histories of the C02 alphabet plus ACCESS, READ, WRITE (one byte appended), COMMIT, FSSTAT, FSINFO, PATHCONF, SETATTR(mode in {0,0644,0755,07777,0644|1<<27,0755|1<<31,0x4000|0755}), SETATTR(size), SETATTR(uid,gid) through every held handle, from a tree containing a directory, a regular file and a symlink to a directory, and from an empty export, with attribute TTL {1ns,1h} and directory cache {off,on}; depth 3 (thorough 4); every fattr3 / post-op attribute / wcc after-attribute / READDIRPLUS entry carried by a reply is harvested and compared with the backend's lstat of that path (file type, size of regular files, permission bits) and with the fileid every other reply gave for the same unchanged path; after a successful SETATTR the same handle must still answer GETATTR (and READDIR for a directory).",
 		assumptions: []string{"ground truth is lstat on the recording backend at the time of the reply", "sizes are compared for regular files only"},
 		run: func(c *vCtx) {
 			var cfgs []nsCfg
